@@ -392,6 +392,11 @@ def run(pr, repo):
     for st, w0 in steps:
         tasks.append((task_section, (st, w0)))
     pr.parallel(tasks)
+    from . import frames
+    frames.query_is_pure(pr, repo, ['propka.molecular_container.MolecularContainer.get_folding_profile',
+                                    'propka.conformation_container.ConformationContainer.calculate_folding_energy',
+                                    'propka.group.Group.calculate_folding_energy', 'propka.lib.make_grid'] + C09.QUERIES,
+                         'folding and charge queries')
     pr.assumptions += ['A-REAL incl. Decimal arithmetic = real arithmetic; round(x, n) modelled as "a multiple of 10^-n within half a unit"',
                        'window step and start are taken from a finite list of decimal values (the pH, dG and window end are symbolic)',
                        'Lean kernel + Mathlib for the derivative lemma']
